@@ -34,8 +34,14 @@ class BrentsRootFinder:
         self.next_abscissa: Optional[float] = None
 
     def get_next_abscissa(self) -> float:
-        if abs(self.fc - self.fa) < self.epsilon or abs(self.fc - self.fb) < self.epsilon:
-            # Secant method
+        if (
+            abs(self.fc - self.fa) < self.epsilon
+            or abs(self.fc - self.fb) < self.epsilon
+            or self.fa == 0
+            or self.fc == 0
+        ):
+            # Secant method (also when an ordinate is exactly zero:
+            # the interpolation below divides by fa and fc)
             dx = self.fb * (self.b - self.a) / (self.fa - self.fb)
         else:
             # Inverse quadratic interpolation
